@@ -1,12 +1,1630 @@
-//! C09 — not implemented yet.
+//! C09 — DataCap is conserved and each allocation is spent exactly once. DESIGN §3 C09.
+//!
+//! Scenario `c09/datacap` (MAINNET policy): the real verified registry, DataCap token, market,
+//! root multisig and two real miner actors. A reference **token ledger + allocation table**,
+//! written from the property text, is stepped in lock-step with the implementation and compared
+//! after every step (all holder balances, supply, verifier allowances, allocation table, claim
+//! table, `TotalSupply` / `Balance` method probes).
+//!
+//! What the model defines (judged) and what it adopts (not judged):
+//! * judged: supply = Σ balances = minted − burnt; verifier allowance −= grant; only verifiers
+//!   mint, never beyond their allowance; registry balance = Σ open allocation sizes; transferred
+//!   amount = Σ requested sizes (+ sizes of extended claims, which are burnt); fresh increasing
+//!   allocation ids; a claim group succeeds iff every entry names an open allocation of the calling
+//!   provider with matching client / data / size at `epoch <= expiration` and sector lifetime in
+//!   [term_min, term_max] (no id twice); a successful claim removes the allocation, creates one
+//!   claim record with the same identity and burns `size`; an allocation is removed-and-refunded
+//!   only when `epoch >= expiration` (and must be when `epoch > expiration` and it was named),
+//!   the refund goes to its client, once; client → third-party transfers, stranger
+//!   Mint/Destroy/TransferFrom are rejected.
+//! * adopted: who may become verifier / client beyond the allowance rule, allocation policy limits
+//!   (term / expiration / size / provider type), what happens to a batch that names an id twice in
+//!   one sector group (group failure or message abort — never a second claim), removal exactly at
+//!   `epoch == expiration`, every claim-term rule (C10), authorisation of
+//!   `RemoveVerifiedClientDataCap` (only its ledger effect is judged), market-side deal rules.
+use crate::chain::*;
+use crate::util::*;
+use fil_actor_datacap::{DestroyParams, Method as DcMethod, MintParams, State as DcState};
+use fil_actor_market::{
+    AddBalanceParams, BatchActivateDealsParams, BatchActivateDealsResult, ClientDealProposal,
+    DealProposal, Label, Method as MarketMethod, PublishStorageDealsParams,
+    PublishStorageDealsReturn, SectorDeals,
+};
+use fil_actor_multisig::{Method as MsigMethod, ProposeParams, ProposeReturn};
+use fil_actor_verifreg::state::{REMOVE_DATACAP_PROPOSALS_CONFIG, RemoveDataCapProposalMap};
+use fil_actor_verifreg::{
+    AddrPairKey, Allocation, AllocationClaim, AllocationRequest, AllocationRequests,
+    AllocationsResponse, Claim, ClaimAllocationsParams, ClaimAllocationsReturn,
+    ClaimExtensionRequest, ClaimTerm, ExtendClaimTermsParams, Method as VrMethod,
+    RemoveDataCapParams, RemoveDataCapProposal, RemoveDataCapProposalID, RemoveDataCapRequest,
+    RemoveExpiredAllocationsParams, RemoveExpiredAllocationsReturn, RemoveExpiredClaimsParams,
+    RemoveVerifierParams, SIGNATURE_DOMAIN_SEPARATION_REMOVE_DATA_CAP, SectorAllocationClaims,
+    State as VrState, VerifierParams,
+};
+use fil_actors_runtime::runtime::Policy;
+use fil_actors_runtime::test_utils::make_piece_cid;
+use fil_actors_runtime::{
+    DATACAP_TOKEN_ACTOR_ADDR, DEFAULT_HAMT_CONFIG, Map2, STORAGE_MARKET_ACTOR_ADDR,
+    VERIFIED_REGISTRY_ACTOR_ADDR,
+};
+use frc46_token::token::state::decode_actor_id;
+use frc46_token::token::types::{BurnParams, TransferFromParams, TransferParams, TransferReturn};
+use fvm_ipld_encoding::RawBytes;
+use fvm_shared::ActorID;
+use fvm_shared::address::Address;
+use fvm_shared::bigint::BigInt;
+use fvm_shared::crypto::signature::{Signature, SignatureType};
+use fvm_shared::econ::TokenAmount;
+use fvm_shared::piece::PaddedPieceSize;
+use fvm_shared::sector::{RegisteredPoStProof, RegisteredSealProof};
+use mcvm::{Inv, Store, VERIFREG_ROOT_ID, VERIFREG_ROOT_SIGNER_ID, Vm, fake_sign};
+use mcx::{Bounds, Key, Scenario, Step};
+use num_traits::Zero;
+use serde::{Deserialize, Serialize};
+use serde_json::json;
+use std::collections::{BTreeMap, BTreeSet};
 
-pub fn run(_tier: &str) -> ! {
-    eprintln!("C09: check not implemented");
-    std::process::exit(2)
+/// One "unit" of DataCap = the policy's minimum verified allocation size (1 MiB).
+pub const UNIT: i128 = 1 << 20;
+pub const MINTERM: i64 = 180 * 2880;
+pub const MAXTERM: i64 = 5 * 365 * 2880;
+pub const MAXEXP: i64 = 60 * 2880;
+pub const SLOT: i64 = 20;
+pub const DEAL_DURATION: i64 = 180 * 2880;
+const PCOLL: i128 = 1_000_000_000_000_000_000;
+const REG: ActorID = 6;
+const DCAP: ActorID = 7;
+
+#[derive(Clone, Copy, Debug, Serialize, Deserialize, PartialEq, Eq, PartialOrd, Ord)]
+pub enum P {
+    V,
+    V2,
+    C1,
+    C2,
+    Z,
+    O1,
+    O2,
+    M1,
+    M2,
+    Reg,
+}
+
+/// Allocation request as put into the operator data (absolute numbers; sizes in bytes).
+#[derive(Clone, Debug, Serialize, Deserialize, PartialEq, Eq)]
+pub struct Req {
+    pub provider: P,
+    pub data: u8,
+    pub size: i128,
+    pub term_min: i64,
+    pub term_max: i64,
+    pub expiration: i64,
+}
+
+#[derive(Clone, Debug, Serialize, Deserialize, PartialEq, Eq)]
+pub struct Ext {
+    pub provider: P,
+    pub claim: u64,
+    pub term_max: i64,
+}
+
+#[derive(Clone, Debug, Serialize, Deserialize, PartialEq, Eq)]
+pub struct CE {
+    pub client: P,
+    pub id: u64,
+    pub data: u8,
+    pub size: i128,
+}
+
+#[derive(Clone, Debug, Serialize, Deserialize, PartialEq, Eq)]
+pub struct SC {
+    pub sector: u64,
+    pub expiry: i64,
+    pub claims: Vec<CE>,
+}
+
+#[derive(Clone, Copy, Debug, Serialize, Deserialize, PartialEq, Eq)]
+pub enum RdcSig {
+    Good,
+    Tampered,
+    SameVerifierTwice,
+}
+
+#[derive(Clone, Debug, Serialize, Deserialize)]
+pub enum Act {
+    /// root multisig signer proposes (threshold 1 ⇒ executes) VerifiedRegistry.AddVerifier
+    AddVerifier { who: P, bytes: i128 },
+    RemoveVerifier { who: P },
+    Grant { by: P, to: P, bytes: i128 },
+    /// DataCap.Transfer(by → registry, amount, operator_data = allocation / extension requests)
+    Alloc { label: String, by: P, amount: i128, reqs: Vec<Req>, exts: Vec<Ext> },
+    /// VerifiedRegistry.ClaimAllocations by an impersonated (real) miner actor, or a plain account
+    Claim { label: String, by: P, sectors: Vec<SC>, aon: bool },
+    RemoveExpiredAllocs { by: P, client: P, ids: Vec<u64> },
+    RemoveExpiredClaims { by: P, provider: P, ids: Vec<u64> },
+    ExtendClaimTerms { by: P, terms: Vec<(P, u64, i64)> },
+    RemoveDataCap { client: P, bytes: i128, sig: RdcSig },
+    Burn { by: P, bytes: i128 },
+    Transfer { by: P, to: P, bytes: i128 },
+    /// operator `by` moves `from`'s tokens; `req` = allocation request when the target is the registry
+    TransferFrom { by: P, from: P, to: P, bytes: i128, req: Option<Req> },
+    Mint { by: P, to: P, bytes: i128 },
+    Destroy { by: P, owner: P, bytes: i128 },
+    /// Market.PublishStorageDeals of one verified deal (client, provider, piece tag, start epoch)
+    Publish { by: P, client: P, provider: P, piece: u8, start: i64 },
+    /// impersonated miner → Market.BatchActivateDeals, then claims what the market returned
+    ActivateClaim { by: P, deal: u64, sector: u64 },
+    TickTo(i64),
+    /// far jump to the end of a claim's term: one real cron tick, then the epoch is set
+    JumpTo(i64),
+}
+
+#[derive(Clone, Debug, Serialize, PartialEq, Eq)]
+pub struct AllocM {
+    pub client: u64,
+    pub provider: u64,
+    pub data: u8,
+    pub size: i128,
+    pub term_min: i64,
+    pub term_max: i64,
+    pub expiration: i64,
+}
+
+#[derive(Clone, Debug, Serialize, PartialEq, Eq)]
+pub struct ClaimM {
+    pub provider: u64,
+    pub client: u64,
+    pub data: u8,
+    pub size: i128,
+    // adopted from the implementation (claim terms are C10's subject)
+    pub term_min: i64,
+    pub term_max: i64,
+    pub term_start: i64,
+    pub sector: u64,
+}
+
+#[derive(Clone, Copy, Debug, Serialize, PartialEq, Eq)]
+pub enum Fate {
+    Open,
+    Claimed,
+    Refunded,
+}
+
+#[derive(Clone, Debug, Serialize, PartialEq, Eq)]
+pub struct DealM {
+    pub client: u64,
+    pub provider: u64,
+    pub start: i64,
+    pub alloc: Option<u64>,
+    pub activated: bool,
+}
+
+#[derive(Clone, Debug, Serialize, PartialEq, Eq, Default)]
+pub struct Budget {
+    pub root_ops: u32,
+    pub grants: u32,
+    pub allocs: u32,
+    pub claims: u32,
+    pub removes: u32,
+    pub claim_removes: u32,
+    pub extends: u32,
+    pub exts: u32,
+    pub burns: u32,
+    pub rdc: u32,
+    pub publishes: u32,
+    pub activations: u32,
+    pub ticks: u32,
+    pub jumps: u32,
+}
+
+/// The reference model: token ledger + allocation table (+ exploration budgets).
+#[derive(Clone, Debug, Serialize, PartialEq, Eq, Default)]
+pub struct Model {
+    pub base: usize,
+    /// holder -> whole DataCap bytes (1 byte = 1 whole token); zero entries are dropped
+    pub bal: BTreeMap<u64, i128>,
+    pub minted: i128,
+    pub burnt: i128,
+    pub verifiers: BTreeMap<u64, i128>,
+    pub allocs: BTreeMap<u64, AllocM>,
+    pub claims: BTreeMap<u64, ClaimM>,
+    pub fate: BTreeMap<u64, Fate>,
+    pub next_id: u64,
+    pub deals: BTreeMap<u64, DealM>,
+    pub b: Budget,
+}
+
+impl Model {
+    fn credit(&mut self, who: u64, d: i128) {
+        let e = self.bal.entry(who).or_insert(0);
+        *e += d;
+        if *e == 0 {
+            self.bal.remove(&who);
+        }
+    }
+    fn balance(&self, who: u64) -> i128 {
+        *self.bal.get(&who).unwrap_or(&0)
+    }
+}
+
+#[derive(Clone)]
+pub struct Cast {
+    pub v: (ActorID, Address),
+    pub v2: (ActorID, Address),
+    pub c1: (ActorID, Address),
+    pub c2: (ActorID, Address),
+    pub z: (ActorID, Address),
+    pub o1: ActorID,
+    pub o2: ActorID,
+    pub m1: ActorID,
+    pub m2: ActorID,
+    pub epoch0: i64,
+}
+
+impl Cast {
+    pub fn id(&self, p: P) -> ActorID {
+        match p {
+            P::V => self.v.0,
+            P::V2 => self.v2.0,
+            P::C1 => self.c1.0,
+            P::C2 => self.c2.0,
+            P::Z => self.z.0,
+            P::O1 => self.o1,
+            P::O2 => self.o2,
+            P::M1 => self.m1,
+            P::M2 => self.m2,
+            P::Reg => REG,
+        }
+    }
+    fn key(&self, p: P) -> Address {
+        match p {
+            P::V => self.v.1,
+            P::V2 => self.v2.1,
+            P::C1 => self.c1.1,
+            P::C2 => self.c2.1,
+            _ => self.z.1,
+        }
+    }
+    fn is_miner(&self, p: P) -> bool {
+        matches!(p, P::M1 | P::M2)
+    }
+}
+
+pub struct W {
+    pub vm: Vm,
+    pub cast: Cast,
+    pub bases: Vec<(String, mcvm::Snapshot, Model)>,
+    /// base recipes whose own steps violate the oracle: (base, script up to the failing step, message)
+    pub failures: Vec<(String, Vec<Act>, String)>,
+}
+
+pub struct DataCapScn {
+    pub budget: Budget,
+    pub thorough: bool,
+    /// deep configuration: only the core alphabet (valid / repeated / foreign claims, removals,
+    /// valid allocation and extension transfers, burn, market path, time), explored deeper
+    pub deep: bool,
+    pub bases: Vec<&'static str>,
+    /// the bases exploration starts from (all of `bases` are built, so that any replay file finds its base)
+    pub start: Vec<&'static str>,
+    /// scenario name (must start with "c09": `mc replay` dispatches on it)
+    pub tag: &'static str,
+}
+
+/// Is `a` part of the core alphabet of the deep configuration?
+fn core(a: &Act) -> bool {
+    match a {
+        Act::Alloc { label, .. } => matches!(label.as_str(), "1 valid request" | "2 valid requests" | "extension"),
+        Act::Claim { label, aon, .. } => {
+            !*aon && matches!(label.as_str(), "valid" | "foreign provider" | "id twice in one sector" | "id in two sectors" | "two ids in one sector" | "two ids in two sectors" | "claimed id again" | "refunded id again")
+        }
+        Act::RemoveExpiredAllocs { by, ids, .. } => *by == P::Z && ids.len() <= 1,
+        Act::RemoveExpiredClaims { ids, .. } => ids.is_empty(),
+        Act::Burn { bytes, .. } => *bytes == UNIT,
+        Act::Publish { client, .. } => *client == P::C1,
+        Act::ActivateClaim { .. } | Act::TickTo(_) | Act::JumpTo(_) => true,
+        _ => false,
+    }
+}
+
+fn tok(bytes: i128) -> TokenAmount {
+    TokenAmount::from_atto(BigInt::from(bytes) * BigInt::from(1_000_000_000_000_000_000u64))
+}
+
+fn data_cid(tag: u8) -> cid::Cid {
+    make_piece_cid(&[b'd', tag])
+}
+
+/// What the implementation's two actors say (decoded from their state trees).
+pub struct Obs {
+    pub supply: TokenAmount,
+    pub bals: BTreeMap<u64, TokenAmount>,
+    pub verifiers: BTreeMap<u64, i128>,
+    /// (outer key, id, record)
+    pub allocs: Vec<(u64, u64, Allocation)>,
+    pub claims: Vec<(u64, u64, Claim)>,
+}
+
+fn observe(vm: &Vm) -> Obs {
+    let dc: DcState = vm.state_of(DCAP).expect("datacap state");
+    let mut bals = BTreeMap::new();
+    dc.token
+        .get_balance_map(&vm.store)
+        .unwrap()
+        .for_each(|k, v: &TokenAmount| {
+            bals.insert(decode_actor_id(k).unwrap(), v.clone());
+            Ok(())
+        })
+        .unwrap();
+    let vr: VrState = vm.state_of(REG).expect("verifreg state");
+    let mut verifiers = BTreeMap::new();
+    vr.load_verifiers(&vm.store)
+        .unwrap()
+        .for_each(|a, cap| {
+            verifiers.insert(a.id().unwrap(), i128::try_from(cap.0.clone()).unwrap());
+            Ok(())
+        })
+        .unwrap();
+    let mut allocs = vec![];
+    vr.load_allocs(&vm.store)
+        .unwrap()
+        .for_each(|k, root| {
+            let outer = decode_actor_id(k).unwrap();
+            Map2::<&Store, u64, Allocation>::load(&vm.store, root, DEFAULT_HAMT_CONFIG, "allocs")
+                .unwrap()
+                .for_each(|id, a| {
+                    allocs.push((outer, id, a.clone()));
+                    Ok(())
+                })
+                .unwrap();
+            Ok(())
+        })
+        .unwrap();
+    let mut claims = vec![];
+    vr.load_claims(&vm.store)
+        .unwrap()
+        .for_each(|k, root| {
+            let outer = decode_actor_id(k).unwrap();
+            Map2::<&Store, u64, Claim>::load(&vm.store, root, DEFAULT_HAMT_CONFIG, "claims")
+                .unwrap()
+                .for_each(|id, c| {
+                    claims.push((outer, id, c.clone()));
+                    Ok(())
+                })
+                .unwrap();
+            Ok(())
+        })
+        .unwrap();
+    allocs.sort_by_key(|a| (a.1, a.0));
+    claims.sort_by_key(|a| (a.1, a.0));
+    Obs { supply: dc.token.supply.clone(), bals, verifiers, allocs, claims }
+}
+
+fn alloc_ids(vm: &Vm) -> BTreeSet<u64> {
+    observe(vm).allocs.iter().map(|a| a.1).collect()
+}
+
+/// Expected result of one sector group of a claim message.
+#[derive(Clone, Debug, PartialEq, Eq)]
+enum G {
+    Ok(Vec<u64>),
+    Fail,
+    /// names an id twice inside the group: never a success; group failure or message abort
+    Dup,
+}
+
+impl DataCapScn {
+    fn req(&self, c: &Cast, r: &Req) -> AllocationRequest {
+        AllocationRequest {
+            provider: c.id(r.provider),
+            data: data_cid(r.data),
+            size: PaddedPieceSize(r.size as u64),
+            term_min: r.term_min,
+            term_max: r.term_max,
+            expiration: r.expiration,
+        }
+    }
+
+    fn op_data(&self, c: &Cast, reqs: &[Req], exts: &[Ext]) -> RawBytes {
+        RawBytes::serialize(&AllocationRequests {
+            allocations: reqs.iter().map(|r| self.req(c, r)).collect(),
+            extensions: exts
+                .iter()
+                .map(|e| ClaimExtensionRequest { provider: c.id(e.provider), claim: e.claim, term_max: e.term_max })
+                .collect(),
+        })
+        .unwrap()
+    }
+
+    /// The standing oracle. Also adopts the claim-term fields (not this property's subject).
+    fn compare(&self, vm: &Vm, c: &Cast, m: &mut Model) -> Result<(), String> {
+        let o = observe(vm);
+        // token ledger
+        let sum: TokenAmount = o.bals.values().cloned().sum();
+        if sum != o.supply {
+            return Err(format!("DataCap supply {} != sum of holder balances {}", o.supply, sum));
+        }
+        if o.supply != tok(m.minted - m.burnt) {
+            return Err(format!("DataCap supply {} != minted {} - burnt {} (whole tokens) of the ledger model", o.supply, m.minted, m.burnt));
+        }
+        let holders: BTreeSet<u64> = o.bals.keys().chain(m.bal.keys()).cloned().collect();
+        for h in holders {
+            let ib = o.bals.get(&h).cloned().unwrap_or_default();
+            if ib != tok(m.balance(h)) {
+                return Err(format!("holder {h}: DataCap balance {} != ledger model {} whole tokens", ib, m.balance(h)));
+            }
+        }
+        // verifier allowances
+        if o.verifiers != m.verifiers {
+            return Err(format!("verifier allowances {:?} != model {:?}", o.verifiers, m.verifiers));
+        }
+        // allocation table
+        let mut seen = BTreeSet::new();
+        let mut open_total: i128 = 0;
+        for (outer, aid, a) in &o.allocs {
+            if !seen.insert(*aid) {
+                return Err(format!("allocation id {aid} is stored twice"));
+            }
+            open_total += a.size.0 as i128;
+            let Some(ma) = m.allocs.get(aid) else {
+                return Err(format!("allocation {aid} ({a:?}) is in the registry but the model has it as {:?}", m.fate.get(aid)));
+            };
+            let same = *outer == ma.client
+                && a.client == ma.client
+                && a.provider == ma.provider
+                && a.data == data_cid(ma.data)
+                && a.size.0 as i128 == ma.size
+                && a.term_min == ma.term_min
+                && a.term_max == ma.term_max
+                && a.expiration == ma.expiration;
+            if !same {
+                return Err(format!("allocation {aid}: registry has {a:?} under client {outer}, model {ma:?}"));
+            }
+        }
+        for aid in m.allocs.keys() {
+            if !seen.contains(aid) {
+                return Err(format!("open allocation {aid} of the model is missing from the registry"));
+            }
+        }
+        let reg_bal = o.bals.get(&REG).cloned().unwrap_or_default();
+        if reg_bal != tok(open_total) {
+            return Err(format!("registry token balance {} != total size of unclaimed allocations {} bytes", reg_bal, open_total));
+        }
+        // claim table
+        let mut seen_c = BTreeSet::new();
+        for (outer, cid_, cl) in &o.claims {
+            if !seen_c.insert(*cid_) {
+                return Err(format!("claim id {cid_} is stored twice"));
+            }
+            let Some(mc) = m.claims.get_mut(cid_) else {
+                return Err(format!("claim {cid_} ({cl:?}) exists but the model has allocation {cid_} as {:?}", m.fate.get(cid_)));
+            };
+            let same = *outer == mc.provider
+                && cl.provider == mc.provider
+                && cl.client == mc.client
+                && cl.data == data_cid(mc.data)
+                && cl.size.0 as i128 == mc.size;
+            if !same {
+                return Err(format!("claim {cid_}: registry has {cl:?} under provider {outer}, model {mc:?}"));
+            }
+            mc.term_min = cl.term_min;
+            mc.term_max = cl.term_max;
+            mc.term_start = cl.term_start;
+            mc.sector = cl.sector;
+        }
+        for cid_ in m.claims.keys() {
+            if !seen_c.contains(cid_) {
+                return Err(format!("claim {cid_} of the model is missing from the registry"));
+            }
+        }
+        // an id is open, claimed or refunded — never two of them
+        for (aid, f) in &m.fate {
+            let open = m.allocs.contains_key(aid);
+            if open != (*f == Fate::Open) || (m.claims.contains_key(aid) && *f != Fate::Claimed) {
+                return Err(format!("model inconsistency for allocation {aid}: {f:?}"));
+            }
+        }
+        // API probes (read-only methods, no state change): TotalSupply, Balance
+        let dcap = DATACAP_TOKEN_ACTOR_ADDR;
+        let z = TokenAmount::zero();
+        let r = ext(vm, c.z.0, &dcap, &z, DcMethod::TotalSupplyExported as u64, NOP);
+        match r.ret.as_ref().filter(|_| r.ok()).map(|b| b.deserialize::<TokenAmount>()) {
+            Some(Ok(s)) if s == o.supply => {}
+            other => return Err(format!("TotalSupply probe returned {:?}, token state says {}", other, o.supply)),
+        }
+        for h in [c.c1.0, c.c2.0, REG] {
+            let r = ext(vm, c.z.0, &dcap, &z, DcMethod::BalanceExported as u64, Some(&id(h)));
+            match r.ret.as_ref().filter(|_| r.ok()).map(|b| b.deserialize::<TokenAmount>()) {
+                Some(Ok(s)) if s == tok(m.balance(h)) => {}
+                other => return Err(format!("Balance({h}) probe returned {:?}, ledger model {} whole tokens", other, m.balance(h))),
+            }
+        }
+        Ok(())
+    }
+
+    /// Specification of a claim message (see module doc).
+    fn model_claim(&self, c: &Cast, m: &Model, by: P, sectors: &[SC], now: i64) -> Vec<G> {
+        let caller = c.id(by);
+        let mut claimed: BTreeSet<u64> = BTreeSet::new();
+        let mut out = vec![];
+        for g in sectors {
+            let mut ids: Vec<u64> = g.claims.iter().map(|e| e.id).collect();
+            ids.sort();
+            if ids.windows(2).any(|w| w[0] == w[1]) {
+                out.push(G::Dup);
+                continue;
+            }
+            let life = g.expiry - now;
+            let valid = g.claims.iter().all(|e| match m.allocs.get(&e.id) {
+                None => false,
+                Some(a) => {
+                    !claimed.contains(&e.id)
+                        && c.is_miner(by)
+                        && a.provider == caller
+                        && a.client == c.id(e.client)
+                        && a.data == e.data
+                        && a.size == e.size
+                        && now <= a.expiration
+                        && life >= a.term_min
+                        && life <= a.term_max
+                }
+            });
+            if valid {
+                ids = g.claims.iter().map(|e| e.id).collect();
+                claimed.extend(ids.iter().cloned());
+                out.push(G::Ok(ids));
+            } else {
+                out.push(G::Fail);
+            }
+        }
+        out
+    }
+
+    /// Run a claim message and judge it against the model. Returns (outcome, violation).
+    fn do_claim(&self, vm: &Vm, c: &Cast, m: &mut Model, by: P, sectors: &[SC], aon: bool, now: i64) -> (&'static str, Option<String>) {
+        let expect = self.model_claim(c, m, by, sectors, now);
+        let prm = ClaimAllocationsParams {
+            sectors: sectors
+                .iter()
+                .map(|g| SectorAllocationClaims {
+                    sector: g.sector,
+                    expiry: g.expiry,
+                    claims: g
+                        .claims
+                        .iter()
+                        .map(|e| AllocationClaim { client: c.id(e.client), allocation_id: e.id, data: data_cid(e.data), size: PaddedPieceSize(e.size as u64) })
+                        .collect(),
+                })
+                .collect(),
+            all_or_nothing: aon,
+        };
+        let reg = VERIFIED_REGISTRY_ACTOR_ADDR;
+        let z = TokenAmount::zero();
+        let r = if c.is_miner(by) {
+            imp(vm, c.id(by), &reg, &z, VrMethod::ClaimAllocations as u64, Some(&prm))
+        } else {
+            ext(vm, c.id(by), &reg, &z, VrMethod::ClaimAllocations as u64, Some(&prm))
+        };
+        let any_ok = expect.iter().any(|g| matches!(g, G::Ok(_)));
+        let all_ok = expect.iter().all(|g| matches!(g, G::Ok(_)));
+        let any_dup = expect.iter().any(|g| *g == G::Dup);
+        if !r.ok() {
+            // defined: the message must go through when a valid group exists, nothing forces an
+            // abort (all-or-nothing with a failing group) and no group names an id twice
+            if any_ok && !any_dup && (all_ok || !aon) {
+                return ("rejected", Some(format!("claim by {by:?} at {now} with a valid group was rejected (model {expect:?}): {}", r.tree())));
+            }
+            return ("rejected", None);
+        }
+        if aon && !all_ok {
+            return ("accepted", Some(format!("all-or-nothing claim went through although the model fails a group: {expect:?}")));
+        }
+        let ret: ClaimAllocationsReturn = match r.ret.as_ref().map(|b| b.deserialize()) {
+            Some(Ok(x)) => x,
+            _ => return ("accepted", Some("ClaimAllocations returned no decodable value".into())),
+        };
+        let codes = ret.sector_results.codes();
+        if codes.len() != expect.len() {
+            return ("accepted", Some(format!("ClaimAllocations returned {} sector results for {} sectors", codes.len(), expect.len())));
+        }
+        let mut k = 0usize;
+        for (i, (code, g)) in codes.iter().zip(expect.iter()).enumerate() {
+            match (code.is_success(), g) {
+                (true, G::Ok(ids)) => {
+                    let space: i128 = ids.iter().map(|i| m.allocs[i].size).sum();
+                    let got = ret.sector_claims.get(k).map(|s| s.claimed_space.clone());
+                    if got != Some(BigInt::from(space)) {
+                        return ("accepted", Some(format!("sector group {i}: claimed space {:?} != total size {space} of the claimed allocations", got)));
+                    }
+                    k += 1;
+                    let sector = sectors[i].sector;
+                    for aid in ids {
+                        let a = m.allocs.remove(aid).unwrap();
+                        m.fate.insert(*aid, Fate::Claimed);
+                        m.claims.insert(*aid, ClaimM { provider: a.provider, client: a.client, data: a.data, size: a.size, term_min: a.term_min, term_max: a.term_max, term_start: now, sector });
+                        m.burnt += a.size;
+                        m.credit(REG, -a.size);
+                    }
+                }
+                (false, G::Ok(_)) => {
+                    return ("accepted", Some(format!("sector group {i} is a valid claim by the named provider {by:?} at {now} but failed with {code:?}; model {expect:?}")));
+                }
+                (true, g) => {
+                    return ("accepted", Some(format!("sector group {i} succeeded but the model says {g:?}: {:?} by {by:?} at epoch {now}", sectors[i])));
+                }
+                (false, _) => {}
+            }
+        }
+        (if any_ok { "claimed" } else { "nothing claimed" }, None)
+    }
+
+    fn propose(&self, vm: &Vm, method: u64, params: RawBytes) -> (Inv, bool) {
+        let r = ext(
+            vm,
+            VERIFREG_ROOT_SIGNER_ID,
+            &id(VERIFREG_ROOT_ID),
+            &TokenAmount::zero(),
+            MsigMethod::Propose as u64,
+            Some(&ProposeParams { to: VERIFIED_REGISTRY_ACTOR_ADDR, value: TokenAmount::zero(), method, params }),
+        );
+        let applied = r.ok()
+            && r.ret
+                .as_ref()
+                .and_then(|b| b.deserialize::<ProposeReturn>().ok())
+                .map(|p| p.applied && p.code.is_success())
+                .unwrap_or(false);
+        (r, applied)
+    }
+
+    fn slot_after(&self, c: &Cast, now: i64) -> i64 {
+        let mut e = c.epoch0 + SLOT;
+        while e <= now + 1 {
+            e += SLOT;
+        }
+        e
+    }
+
+    fn deal_proposal(&self, c: &Cast, client: P, provider: P, piece: u8, start: i64) -> ClientDealProposal {
+        let proposal = DealProposal {
+            piece_cid: data_cid(piece),
+            piece_size: PaddedPieceSize(UNIT as u64),
+            verified_deal: true,
+            client: id(c.id(client)),
+            provider: id(c.id(provider)),
+            label: Label::String(format!("vdeal-{piece}")),
+            start_epoch: start,
+            end_epoch: start + DEAL_DURATION,
+            storage_price_per_epoch: TokenAmount::zero(),
+            provider_collateral: atto(PCOLL),
+            client_collateral: TokenAmount::zero(),
+        };
+        let bz = RawBytes::serialize(&proposal).unwrap();
+        let sig = fake_sign(&c.key(client), &bz);
+        ClientDealProposal { proposal, client_signature: Signature { sig_type: SignatureType::BLS, bytes: sig } }
+    }
+
+    fn fresh(&self, base: usize) -> Model {
+        Model { base, next_id: 1, b: self.budget.clone(), ..Default::default() }
+    }
+}
+
+impl Scenario for DataCapScn {
+    type S = VS<Model>;
+    type A = Act;
+    type W = W;
+
+    fn name(&self) -> String {
+        self.tag.into()
+    }
+
+    fn worker(&self, store: &Store) -> W {
+        let vm = Vm::genesis(store.clone(), Policy::default());
+        vm.bump_nonce.set(true);
+        let v = vm.new_account(11, &fil(100));
+        let v2 = vm.new_account(12, &fil(100));
+        let c1 = vm.new_account(13, &fil(100));
+        let c2 = vm.new_account(14, &fil(100));
+        let z = vm.new_account(15, &fil(100));
+        let o1 = vm.new_account(16, &fil(10_000)).0;
+        let o2 = vm.new_account(17, &fil(10_000)).0;
+        for _ in 0..3 {
+            vm.tick();
+        }
+        let proof = RegisteredPoStProof::StackedDRGWindow32GiBV1P1;
+        let m1 = create_miner(&vm, o1, o1, proof, &fil(2000)).unwrap_or_else(|r| panic!("SETUP-FAILED create miner: {}", r.tree()));
+        let m2 = create_miner(&vm, o2, o2, proof, &fil(2000)).unwrap_or_else(|r| panic!("SETUP-FAILED create miner: {}", r.tree()));
+        for (to, by) in [(m1, o1), (m2, o2)] {
+            let r = ext(&vm, by, &STORAGE_MARKET_ACTOR_ADDR, &atto(4 * PCOLL), MarketMethod::AddBalance as u64, Some(&AddBalanceParams { provider_or_client: id(to) }));
+            assert!(r.ok(), "SETUP-FAILED add balance: {}", r.tree());
+        }
+        for _ in 0..2 {
+            vm.tick();
+        }
+        vm.bump_nonce.set(false);
+        let cast = Cast { v, v2, c1, c2, z, o1, o2, m1, m2, epoch0: vm.epoch() };
+        let mut w = W { vm, cast, bases: vec![], failures: vec![] };
+        let g = w.vm.snapshot();
+        let c = w.cast.clone();
+        let e = c.epoch0 + SLOT;
+        let r1 = |p: P, d: u8| Req { provider: p, data: d, size: UNIT, term_min: MINTERM, term_max: MINTERM + 100, expiration: e };
+        let grant: Vec<Act> = vec![
+            Act::AddVerifier { who: P::V, bytes: 4 * UNIT },
+            Act::Grant { by: P::V, to: P::C1, bytes: 2 * UNIT },
+            Act::Grant { by: P::V, to: P::C2, bytes: UNIT },
+        ];
+        let alloc2 = Act::Alloc { label: "setup".into(), by: P::C1, amount: 2 * UNIT, reqs: vec![r1(P::M1, 11), r1(P::M2, 21)], exts: vec![] };
+        let mut bases = vec![];
+        let mut failures = vec![];
+        for &bn in &self.bases {
+            let mut script: Vec<Act> = vec![];
+            match bn {
+                "genesis" => {}
+                "granted" => script.extend(grant.clone()),
+                "two-verifiers" => {
+                    script.extend(grant.clone());
+                    script.push(Act::AddVerifier { who: P::V2, bytes: 4 * UNIT });
+                }
+                "allocated" => {
+                    script.extend(grant.clone());
+                    script.push(alloc2.clone());
+                }
+                "deal" => {
+                    script.extend(grant.clone());
+                    script.push(Act::Publish { by: P::O1, client: P::C1, provider: P::M1, piece: 31, start: e });
+                }
+                "claimed" => {
+                    script.extend(grant.clone());
+                    script.push(alloc2.clone());
+                    script.push(Act::Claim {
+                        label: "setup".into(),
+                        by: P::M1,
+                        sectors: vec![SC { sector: 1, expiry: c.epoch0 + MINTERM, claims: vec![CE { client: P::C1, id: 1, data: 11, size: UNIT }] }],
+                        aon: true,
+                    });
+                }
+                other => panic!("unknown base {other}"),
+            }
+            let mut big = self.fresh(bases.len());
+            big.b = Budget { root_ops: 9, grants: 9, allocs: 9, claims: 9, removes: 9, claim_removes: 9, extends: 9, exts: 9, burns: 9, rdc: 9, publishes: 9, activations: 9, ticks: 9, jumps: 9 };
+            let mut s = VS { snap: g.clone(), m: big };
+            let mut failed = false;
+            for (i, a) in script.iter().enumerate() {
+                let st = self.step(&w, &s, a, &[]);
+                if let Some(v) = st.violation {
+                    // a recipe step inside the property: reported by `run` as a violation whose
+                    // replay path starts at the genesis base
+                    failures.push((bn.to_string(), script[..=i].to_vec(), v));
+                    failed = true;
+                    break;
+                }
+                s = st.next.unwrap();
+            }
+            if failed {
+                continue;
+            }
+            let want = match bn {
+                "genesis" => (0, 0, 0),
+                "granted" | "two-verifiers" => (3 * UNIT, 0, 0),
+                "allocated" => (3 * UNIT, 2, 0),
+                "deal" => (3 * UNIT, 1, 0),
+                _ => (3 * UNIT, 1, 1),
+            };
+            let got = (s.m.minted, s.m.allocs.len(), s.m.claims.len());
+            if got != want {
+                // the implementation declined a recipe step the model leaves open: no such base
+                if std::env::var("MC_TIMING").is_ok() {
+                    eprintln!("SETUP: base {bn} not reachable on this tree: (minted, open allocations, claims) = {got:?}, recipe aims at {want:?}");
+                }
+                continue;
+            }
+            s.m.b = self.budget.clone();
+            s.m.base = bases.len();
+            bases.push((bn.to_string(), s.snap.clone(), s.m.clone()));
+        }
+        w.bases = bases;
+        w.failures = failures;
+        w
+    }
+
+    fn bases(&self, w: &W) -> Vec<(String, VS<Model>)> {
+        w.bases.iter().filter(|b| self.start.contains(&b.0.as_str())).map(|(n, s, m)| (n.clone(), VS { snap: s.clone(), m: m.clone() })).collect()
+    }
+
+    fn key(&self, s: &VS<Model>) -> Key {
+        vs_key(s)
+    }
+
+    fn kind(&self, a: &Act) -> String {
+        match a {
+            Act::AddVerifier { .. } => "add-verifier (root multisig)".into(),
+            Act::RemoveVerifier { .. } => "remove-verifier (root multisig)".into(),
+            Act::Grant { by, to, .. } => format!("add-verified-client by {by:?}{}", if *to == P::Reg { " to the registry" } else { "" }),
+            Act::Alloc { label, .. } => format!("transfer-to-registry: {label}"),
+            Act::Claim { label, aon, .. } => format!("claim: {label}{}", if *aon { " (all-or-nothing)" } else { "" }),
+            Act::RemoveExpiredAllocs { ids, .. } => format!("remove-expired-allocations x{}", ids.len()),
+            Act::RemoveExpiredClaims { ids, .. } => format!("remove-expired-claims x{}", ids.len()),
+            Act::ExtendClaimTerms { by, .. } => format!("extend-claim-terms by {by:?}"),
+            Act::RemoveDataCap { sig, .. } => format!("remove-verified-client-datacap sigs {sig:?}"),
+            Act::Burn { .. } => "client burn".into(),
+            Act::Transfer { .. } => "client transfer to third party".into(),
+            Act::TransferFrom { to, .. } => format!("stranger transfer-from to {to:?}"),
+            Act::Mint { .. } => "stranger mint".into(),
+            Act::Destroy { .. } => "stranger destroy".into(),
+            Act::Publish { .. } => "publish verified deal".into(),
+            Act::ActivateClaim { by, .. } => format!("activate deal + claim by {by:?}"),
+            Act::TickTo(_) => "tick-to".into(),
+            Act::JumpTo(_) => "jump-to (claim term end)".into(),
+        }
+    }
+
+    fn actions(&self, w: &W, s: &VS<Model>) -> Vec<Act> {
+        let m = &s.m;
+        let c = &w.cast;
+        let now = s.snap.epoch;
+        let th = self.thorough;
+        let mut v = vec![];
+        let who_of = |idv: u64| -> P {
+            for p in [P::V, P::V2, P::C1, P::C2, P::Z, P::O1, P::O2, P::M1, P::M2, P::Reg] {
+                if c.id(p) == idv {
+                    return p;
+                }
+            }
+            P::Z
+        };
+        let other_miner = |p: P| if p == P::M1 { P::M2 } else { P::M1 };
+        let other_client = |p: P| if p == P::C1 { P::C2 } else { P::C1 };
+        let clients = [P::C1, P::C2];
+
+        // ---- verifiers
+        if m.b.root_ops > 0 {
+            v.push(Act::AddVerifier { who: P::V, bytes: 4 * UNIT });
+            if m.verifiers.contains_key(&c.v.0) {
+                v.push(Act::RemoveVerifier { who: P::V });
+                v.push(Act::AddVerifier { who: P::V2, bytes: 4 * UNIT });
+            }
+            if th {
+                v.push(Act::AddVerifier { who: P::C1, bytes: 4 * UNIT });
+                v.push(Act::RemoveVerifier { who: P::V2 });
+            }
+        }
+        // ---- grants
+        if m.b.grants > 0 {
+            for to in clients {
+                for n in [1, 2, 5] {
+                    v.push(Act::Grant { by: P::V, to, bytes: n * UNIT });
+                }
+            }
+            v.push(Act::Grant { by: P::Z, to: P::C1, bytes: UNIT });
+            v.push(Act::Grant { by: P::V, to: P::Reg, bytes: UNIT });
+            if m.verifiers.contains_key(&c.v2.0) {
+                v.push(Act::Grant { by: P::V2, to: P::C1, bytes: UNIT });
+            }
+            if th {
+                v.push(Act::Grant { by: P::C1, to: P::C2, bytes: UNIT });
+                v.push(Act::Grant { by: P::V, to: P::V2, bytes: UNIT });
+            }
+        }
+        // ---- allocation requests by direct transfer
+        let e = self.slot_after(c, now);
+        let rq = |p: P, units: i128| Req { provider: p, data: if p == P::M1 { 10 } else { 20 } + units as u8, size: units * UNIT, term_min: MINTERM, term_max: MINTERM + 100, expiration: e };
+        if m.b.allocs > 0 {
+            let mut holders: Vec<P> = clients.iter().cloned().filter(|p| m.balance(c.id(*p)) > 0).collect();
+            if holders.is_empty() {
+                holders.push(P::C1);
+            }
+            for (hi, by) in holders.iter().cloned().enumerate() {
+                let mut add = |label: &str, amount: i128, reqs: Vec<Req>| {
+                    v.push(Act::Alloc { label: label.into(), by, amount, reqs, exts: vec![] });
+                };
+                add("1 valid request", UNIT, vec![rq(P::M1, 1)]);
+                add("1 valid request", UNIT, vec![rq(P::M2, 1)]);
+                add("1 valid request", 2 * UNIT, vec![rq(P::M1, 2)]);
+                if m.b.allocs >= 2 {
+                    add("2 valid requests", 2 * UNIT, vec![rq(P::M1, 1), rq(P::M2, 1)]);
+                }
+                if hi == 0 || th {
+                    add("amount above the requested sizes", 2 * UNIT, vec![rq(P::M1, 1)]);
+                    add("amount below the requested sizes", UNIT, vec![rq(P::M1, 1), rq(P::M1, 1)]);
+                    add("no request", UNIT, vec![]);
+                    add("term below minimum", UNIT, vec![Req { term_min: MINTERM - 1, ..rq(P::M1, 1) }]);
+                    add("expiration too far", UNIT, vec![Req { expiration: now + MAXEXP + 1, ..rq(P::M1, 1) }]);
+                }
+                if th && hi == 0 {
+                    add("expiration in the past", UNIT, vec![Req { expiration: now - 1, ..rq(P::M1, 1) }]);
+                    add("provider is not a miner", UNIT, vec![Req { provider: P::C2, ..rq(P::M1, 1) }]);
+                    add("size below minimum", UNIT / 2, vec![Req { size: UNIT / 2, ..rq(P::M1, 1) }]);
+                    add("term max above limit", UNIT, vec![Req { term_max: MAXTERM + 1, ..rq(P::M1, 1) }]);
+                }
+            }
+        }
+        // ---- claim extensions paid with datacap
+        if m.b.exts > 0 {
+            if let Some((cid_, cl)) = m.claims.iter().next() {
+                let prov = who_of(cl.provider);
+                for by in clients {
+                    if m.balance(c.id(by)) == 0 {
+                        continue;
+                    }
+                    let x = Ext { provider: prov, claim: *cid_, term_max: cl.term_max + 10 };
+                    v.push(Act::Alloc { label: "extension".into(), by, amount: cl.size, reqs: vec![], exts: vec![x.clone()] });
+                    v.push(Act::Alloc { label: "extension, wrong amount".into(), by, amount: cl.size + UNIT, reqs: vec![], exts: vec![x.clone()] });
+                    if m.b.allocs > 0 {
+                        v.push(Act::Alloc { label: "request + extension".into(), by, amount: cl.size + UNIT, reqs: vec![rq(P::M1, 1)], exts: vec![x.clone()] });
+                    }
+                    if th {
+                        v.push(Act::Alloc { label: "extension of unknown claim".into(), by, amount: UNIT, reqs: vec![], exts: vec![Ext { claim: m.next_id + 5, ..x.clone() }] });
+                        v.push(Act::Alloc { label: "extension, wrong provider".into(), by, amount: cl.size, reqs: vec![], exts: vec![Ext { provider: other_miner(prov), ..x }] });
+                    }
+                }
+            }
+        }
+        // ---- claims
+        if m.b.claims > 0 {
+            let open: Vec<(u64, AllocM)> = m.allocs.iter().map(|(k, a)| (*k, a.clone())).collect();
+            let ce = |aid: u64, a: &AllocM| CE { client: who_of(a.client), id: aid, data: a.data, size: a.size };
+            let mut unknown_done = false;
+            for (aid, a) in &open {
+                let p = who_of(a.provider);
+                let q = other_miner(p);
+                let ok_exp = now + a.term_min;
+                let one = |e: CE, exp: i64| vec![SC { sector: 1, expiry: exp, claims: vec![e] }];
+                let mut add = |label: &str, by: P, sectors: Vec<SC>, aon: bool| {
+                    v.push(Act::Claim { label: label.into(), by, sectors, aon });
+                };
+                add("valid", p, one(ce(*aid, a), ok_exp), false);
+                add("valid", p, one(ce(*aid, a), ok_exp), true);
+                add("foreign provider", q, one(ce(*aid, a), ok_exp), false);
+                add("wrong size", p, one(CE { size: a.size + UNIT, ..ce(*aid, a) }, ok_exp), false);
+                add("wrong data", p, one(CE { data: a.data + 100, ..ce(*aid, a) }, ok_exp), false);
+                add("wrong client", p, one(CE { client: other_client(who_of(a.client)), ..ce(*aid, a) }, ok_exp), false);
+                add("sector life below term_min", p, one(ce(*aid, a), now + a.term_min - 1), false);
+                add("sector life above term_max", p, one(ce(*aid, a), now + a.term_max + 1), false);
+                add("sector life = term_max", p, one(ce(*aid, a), now + a.term_max), false);
+                add("id twice in one sector", p, vec![SC { sector: 1, expiry: ok_exp, claims: vec![ce(*aid, a), ce(*aid, a)] }], false);
+                add("id in two sectors", p, vec![SC { sector: 1, expiry: ok_exp, claims: vec![ce(*aid, a)] }, SC { sector: 2, expiry: ok_exp, claims: vec![ce(*aid, a)] }], false);
+                add("id in two sectors", p, vec![SC { sector: 1, expiry: ok_exp, claims: vec![ce(*aid, a)] }, SC { sector: 2, expiry: ok_exp, claims: vec![ce(*aid, a)] }], true);
+                if th {
+                    add("by a non-miner", P::Z, one(ce(*aid, a), ok_exp), false);
+                    add("by the client", who_of(a.client), one(ce(*aid, a), ok_exp), false);
+                }
+                if !unknown_done {
+                    unknown_done = true;
+                    add("unknown id", p, one(CE { id: m.next_id + 3, ..ce(*aid, a) }, ok_exp), false);
+                    add("valid + unknown id in second sector", p, vec![SC { sector: 1, expiry: ok_exp, claims: vec![ce(*aid, a)] }, SC { sector: 2, expiry: ok_exp, claims: vec![CE { id: m.next_id + 3, ..ce(*aid, a) }] }], false);
+                    add("valid + unknown id in second sector", p, vec![SC { sector: 1, expiry: ok_exp, claims: vec![ce(*aid, a)] }, SC { sector: 2, expiry: ok_exp, claims: vec![CE { id: m.next_id + 3, ..ce(*aid, a) }] }], true);
+                    add("no sector", p, vec![], false);
+                }
+            }
+            // pairs
+            for i in 0..open.len() {
+                for j in (i + 1)..open.len() {
+                    let (ia, a) = &open[i];
+                    let (ib, b) = &open[j];
+                    let p = who_of(a.provider);
+                    let exp = now + a.term_min.max(b.term_min);
+                    let mut add = |label: &str, sectors: Vec<SC>, aon: bool| {
+                        v.push(Act::Claim { label: label.into(), by: p, sectors, aon });
+                    };
+                    add("two ids in one sector", vec![SC { sector: 3, expiry: exp, claims: vec![ce(*ia, a), ce(*ib, b)] }], false);
+                    add("two ids in two sectors", vec![SC { sector: 3, expiry: exp, claims: vec![ce(*ia, a)] }, SC { sector: 4, expiry: exp, claims: vec![ce(*ib, b)] }], false);
+                    add("two ids in two sectors", vec![SC { sector: 3, expiry: exp, claims: vec![ce(*ia, a)] }, SC { sector: 4, expiry: exp, claims: vec![ce(*ib, b)] }], true);
+                    add("a, b, a in one sector", vec![SC { sector: 3, expiry: exp, claims: vec![ce(*ia, a), ce(*ib, b), ce(*ia, a)] }], false);
+                    if th {
+                        add("second id with wrong size", vec![SC { sector: 3, expiry: exp, claims: vec![ce(*ia, a)] }, SC { sector: 4, expiry: exp, claims: vec![CE { size: b.size + UNIT, ..ce(*ib, b) }] }], false);
+                        add("second id with wrong size", vec![SC { sector: 3, expiry: exp, claims: vec![ce(*ia, a)] }, SC { sector: 4, expiry: exp, claims: vec![CE { size: b.size + UNIT, ..ce(*ib, b) }] }], true);
+                    }
+                }
+            }
+            // a claimed / refunded id again (claim after claim, claim after removal)
+            for (aid, f) in &m.fate {
+                if *f == Fate::Open {
+                    continue;
+                }
+                let (client, provider, data, size) = match m.claims.get(aid) {
+                    Some(cl) => (who_of(cl.client), who_of(cl.provider), cl.data, cl.size),
+                    None => (P::C1, P::M1, 11, UNIT),
+                };
+                let exp = now + MINTERM;
+                for by in [provider, other_miner(provider)] {
+                    v.push(Act::Claim { label: format!("{f:?} id again").to_lowercase(), by, sectors: vec![SC { sector: 9, expiry: exp, claims: vec![CE { client, id: *aid, data, size }] }], aon: false });
+                }
+            }
+        }
+        // ---- removal of expired allocations
+        if m.b.removes > 0 {
+            let with_allocs: BTreeSet<u64> = m.allocs.values().map(|a| a.client).collect();
+            for cl in clients {
+                if with_allocs.contains(&c.id(cl)) {
+                    v.push(Act::RemoveExpiredAllocs { by: P::Z, client: cl, ids: vec![] });
+                }
+            }
+            if with_allocs.is_empty() {
+                v.push(Act::RemoveExpiredAllocs { by: P::Z, client: P::C1, ids: vec![] });
+            }
+            for (aid, a) in &m.allocs {
+                let cl = who_of(a.client);
+                v.push(Act::RemoveExpiredAllocs { by: P::Z, client: cl, ids: vec![*aid] });
+                v.push(Act::RemoveExpiredAllocs { by: cl, client: cl, ids: vec![*aid, *aid] });
+                v.push(Act::RemoveExpiredAllocs { by: P::Z, client: other_client(cl), ids: vec![*aid] });
+            }
+            let ids: Vec<u64> = m.allocs.iter().filter(|a| a.1.client == c.c1.0).map(|a| *a.0).collect();
+            if ids.len() >= 2 {
+                v.push(Act::RemoveExpiredAllocs { by: P::C2, client: P::C1, ids: ids.clone() });
+                v.push(Act::RemoveExpiredAllocs { by: P::C2, client: P::C1, ids: vec![ids[0], m.next_id + 3, ids[1]] });
+            }
+            for (aid, f) in &m.fate {
+                if *f != Fate::Open {
+                    let cl = m.claims.get(aid).map(|x| who_of(x.client)).unwrap_or(P::C1);
+                    v.push(Act::RemoveExpiredAllocs { by: P::Z, client: cl, ids: vec![*aid] });
+                }
+            }
+        }
+        // ---- claims: removal, term extension by the client
+        if m.b.claim_removes > 0 {
+            let provs: BTreeSet<u64> = m.claims.values().map(|x| x.provider).collect();
+            for p in provs {
+                v.push(Act::RemoveExpiredClaims { by: P::Z, provider: who_of(p), ids: vec![] });
+            }
+            for (cid_, cl) in &m.claims {
+                v.push(Act::RemoveExpiredClaims { by: P::Z, provider: who_of(cl.provider), ids: vec![*cid_] });
+            }
+        }
+        if m.b.extends > 0 {
+            for (cid_, cl) in &m.claims {
+                v.push(Act::ExtendClaimTerms { by: who_of(cl.client), terms: vec![(who_of(cl.provider), *cid_, MAXTERM)] });
+                v.push(Act::ExtendClaimTerms { by: P::Z, terms: vec![(who_of(cl.provider), *cid_, MAXTERM)] });
+            }
+        }
+        // ---- removal of a client's datacap (root + two verifier signatures)
+        if m.b.rdc > 0 && m.verifiers.len() >= 2 {
+            for cl in clients {
+                if m.balance(c.id(cl)) > 0 {
+                    v.push(Act::RemoveDataCap { client: cl, bytes: UNIT, sig: RdcSig::Good });
+                    v.push(Act::RemoveDataCap { client: cl, bytes: 5 * UNIT, sig: RdcSig::Good });
+                    v.push(Act::RemoveDataCap { client: cl, bytes: UNIT, sig: RdcSig::Tampered });
+                    if th {
+                        v.push(Act::RemoveDataCap { client: cl, bytes: UNIT, sig: RdcSig::SameVerifierTwice });
+                    }
+                }
+            }
+            if th && m.balance(REG) > 0 {
+                v.push(Act::RemoveDataCap { client: P::Reg, bytes: UNIT, sig: RdcSig::Good });
+            }
+        }
+        // ---- token operations by clients and strangers
+        let mut first_holder = true;
+        for cl in clients {
+            let bal = m.balance(c.id(cl));
+            if bal == 0 {
+                continue;
+            }
+            if m.b.burns > 0 {
+                v.push(Act::Burn { by: cl, bytes: UNIT });
+                v.push(Act::Burn { by: cl, bytes: bal + UNIT });
+            }
+            if first_holder || th {
+                v.push(Act::Transfer { by: cl, to: other_client(cl), bytes: UNIT });
+                v.push(Act::Transfer { by: cl, to: P::Z, bytes: UNIT });
+                v.push(Act::TransferFrom { by: P::Z, from: cl, to: P::Z, bytes: UNIT, req: None });
+                v.push(Act::TransferFrom { by: P::Z, from: cl, to: P::Reg, bytes: UNIT, req: Some(rq(P::M1, 1)) });
+                v.push(Act::Destroy { by: P::Z, owner: cl, bytes: UNIT });
+            }
+            first_holder = false;
+        }
+        v.push(Act::Mint { by: P::Z, to: P::Z, bytes: UNIT });
+        if th {
+            v.push(Act::Mint { by: P::V, to: P::C1, bytes: UNIT });
+        }
+        // ---- market-mediated path
+        if m.b.publishes > 0 && m.b.allocs > 0 {
+            v.push(Act::Publish { by: P::O1, client: P::C1, provider: P::M1, piece: 31, start: e });
+            v.push(Act::Publish { by: P::O1, client: P::C2, provider: P::M1, piece: 32, start: e });
+        }
+        if m.b.activations > 0 {
+            for (did, d) in &m.deals {
+                if !d.activated && d.alloc.map(|a| m.allocs.contains_key(&a)).unwrap_or(false) {
+                    let p = who_of(d.provider);
+                    v.push(Act::ActivateClaim { by: p, deal: *did, sector: 7 });
+                    if th {
+                        v.push(Act::ActivateClaim { by: other_miner(p), deal: *did, sector: 7 });
+                    }
+                }
+            }
+        }
+        // ---- time: the boundaries of every open allocation, then of claims
+        if m.b.ticks > 0 {
+            let mut t: BTreeSet<i64> = BTreeSet::new();
+            for a in m.allocs.values() {
+                t.insert(a.expiration - 1);
+                t.insert(a.expiration);
+                t.insert(a.expiration + 1);
+            }
+            let mut n = 0;
+            for x in t.into_iter().filter(|x| *x > now) {
+                v.push(Act::TickTo(x));
+                n += 1;
+                if n == 3 {
+                    break;
+                }
+            }
+            let mut t2: BTreeSet<i64> = BTreeSet::new();
+            for cl in m.claims.values() {
+                t2.insert(cl.term_start + cl.term_max);
+                t2.insert(cl.term_start + cl.term_max + 1);
+            }
+            if m.b.jumps > 0 {
+                for x in t2.into_iter().filter(|x| *x > now).take(2) {
+                    v.push(Act::JumpTo(x));
+                }
+            }
+        }
+        if self.deep {
+            v.retain(core);
+        }
+        v
+    }
+
+    fn step(&self, w: &W, s: &VS<Model>, a: &Act, _faults: &[usize]) -> Step<VS<Model>> {
+        let vm = &w.vm;
+        let c = &w.cast;
+        vm.restore(&s.snap);
+        let now = vm.epoch();
+        let mut m = s.m.clone();
+        let mut viol: Option<String> = None;
+        let outcome: &'static str;
+        let z = TokenAmount::zero();
+        let reg = VERIFIED_REGISTRY_ACTOR_ADDR;
+        let dcap = DATACAP_TOKEN_ACTOR_ADDR;
+        let acc = |ok: bool| if ok { "accepted" } else { "rejected" };
+        let mut bad = |msg: String| {
+            if viol.is_none() {
+                viol = Some(msg)
+            }
+        };
+        match a {
+            Act::AddVerifier { who, bytes } => {
+                m.b.root_ops = m.b.root_ops.saturating_sub(1);
+                let p = RawBytes::serialize(&VerifierParams { address: id(c.id(*who)), allowance: BigInt::from(*bytes) }).unwrap();
+                let (_, applied) = self.propose(vm, VrMethod::AddVerifier as u64, p);
+                if applied {
+                    m.verifiers.insert(c.id(*who), *bytes);
+                }
+                outcome = acc(applied);
+            }
+            Act::RemoveVerifier { who } => {
+                m.b.root_ops = m.b.root_ops.saturating_sub(1);
+                let p = RawBytes::serialize(&RemoveVerifierParams { verifier: id(c.id(*who)) }).unwrap();
+                let (_, applied) = self.propose(vm, VrMethod::RemoveVerifier as u64, p);
+                if applied {
+                    m.verifiers.remove(&c.id(*who));
+                }
+                outcome = acc(applied);
+            }
+            Act::Grant { by, to, bytes } => {
+                let r = ext(vm, c.id(*by), &reg, &z, VrMethod::AddVerifiedClient as u64, Some(&VerifierParams { address: id(c.id(*to)), allowance: BigInt::from(*bytes) }));
+                let cap = m.verifiers.get(&c.id(*by)).cloned();
+                if r.ok() {
+                    match cap {
+                        None => bad(format!("{by:?} is not a verifier but its AddVerifiedClient({bytes}) was accepted")),
+                        Some(cap) if cap < *bytes => bad(format!("verifier {by:?} with allowance {cap} granted {bytes}")),
+                        Some(_) => {
+                            *m.verifiers.get_mut(&c.id(*by)).unwrap() -= *bytes;
+                            m.credit(c.id(*to), *bytes);
+                            m.minted += *bytes;
+                            m.b.grants = m.b.grants.saturating_sub(1);
+                        }
+                    }
+                }
+                outcome = acc(r.ok());
+            }
+            Act::Alloc { by, amount, reqs, exts, .. } => {
+                let prm = TransferParams { to: reg, amount: tok(*amount), operator_data: self.op_data(c, reqs, exts) };
+                let r = ext(vm, c.id(*by), &dcap, &z, DcMethod::TransferExported as u64, Some(&prm));
+                let req_total: i128 = reqs.iter().map(|r| r.size).sum();
+                let mut ext_total: i128 = 0;
+                let mut ext_known = true;
+                for x in exts {
+                    match m.claims.get(&x.claim) {
+                        Some(cl) if cl.provider == c.id(x.provider) => ext_total += cl.size,
+                        _ => ext_known = false,
+                    }
+                }
+                if r.ok() {
+                    if !ext_known {
+                        bad("a transfer extending a claim that does not exist was accepted".into());
+                    } else if req_total + ext_total != *amount {
+                        bad(format!("transfer of {amount} to the registry accepted although the requests total {req_total} (+ {ext_total} for extended claims)"));
+                    } else if *amount > m.balance(c.id(*by)) {
+                        bad(format!("{by:?} transferred {amount} with a balance of {}", m.balance(c.id(*by))));
+                    } else {
+                        let ids: Option<Vec<u64>> = r
+                            .ret
+                            .as_ref()
+                            .and_then(|b| b.deserialize::<TransferReturn>().ok())
+                            .and_then(|t| fvm_ipld_encoding::from_slice::<AllocationsResponse>(t.recipient_data.bytes()).ok())
+                            .map(|x| x.new_allocations);
+                        match ids {
+                            Some(ids) if ids.len() == reqs.len() => {
+                                let mut floor = m.next_id;
+                                for (aid, rq) in ids.iter().zip(reqs.iter()) {
+                                    if *aid < floor || m.fate.contains_key(aid) || *aid == 0 {
+                                        bad(format!("new allocation ids {ids:?} are not fresh increasing ids (next unused {})", m.next_id));
+                                        break;
+                                    }
+                                    floor = *aid + 1;
+                                    m.allocs.insert(*aid, AllocM { client: c.id(*by), provider: c.id(rq.provider), data: rq.data, size: rq.size, term_min: rq.term_min, term_max: rq.term_max, expiration: rq.expiration });
+                                    m.fate.insert(*aid, Fate::Open);
+                                }
+                                m.next_id = floor;
+                            }
+                            other => bad(format!("transfer with {} allocation requests returned allocation ids {:?}", reqs.len(), other)),
+                        }
+                        m.credit(c.id(*by), -*amount);
+                        m.credit(REG, req_total);
+                        m.burnt += ext_total;
+                        m.b.allocs = m.b.allocs.saturating_sub(reqs.len() as u32);
+                        if !exts.is_empty() {
+                            m.b.exts = m.b.exts.saturating_sub(1);
+                        }
+                    }
+                }
+                outcome = acc(r.ok());
+            }
+            Act::Claim { by, sectors, aon, .. } => {
+                let (o, v) = self.do_claim(vm, c, &mut m, *by, sectors, *aon, now);
+                if let Some(v) = v {
+                    bad(v);
+                }
+                if o == "claimed" {
+                    m.b.claims = m.b.claims.saturating_sub(1);
+                }
+                outcome = o;
+            }
+            Act::RemoveExpiredAllocs { by, client, ids } => {
+                let before = alloc_ids(vm);
+                let r = ext(vm, c.id(*by), &reg, &z, VrMethod::RemoveExpiredAllocationsExported as u64, Some(&RemoveExpiredAllocationsParams { client: c.id(*client), allocation_ids: ids.clone() }));
+                let after = alloc_ids(vm);
+                let gone: Vec<u64> = before.difference(&after).cloned().collect();
+                let named = |aid: &u64| ids.is_empty() || ids.contains(aid);
+                let mut sorted = ids.clone();
+                sorted.sort();
+                let dup = sorted.windows(2).any(|w| w[0] == w[1]);
+                let mut recovered: i128 = 0;
+                for aid in &gone {
+                    match m.allocs.get(aid).cloned() {
+                        Some(al) if al.client == c.id(*client) && named(aid) && now >= al.expiration => {
+                            m.allocs.remove(aid);
+                            m.fate.insert(*aid, Fate::Refunded);
+                            m.credit(al.client, al.size);
+                            m.credit(REG, -al.size);
+                            recovered += al.size;
+                        }
+                        other => bad(format!("allocation {aid} ({other:?}) was removed by RemoveExpiredAllocations(client {client:?}, {ids:?}) at epoch {now}")),
+                    }
+                }
+                // named, really expired allocations of that client must go (unless the list is malformed)
+                let due: Vec<u64> = m.allocs.iter().filter(|(aid, al)| al.client == c.id(*client) && named(aid) && now > al.expiration).map(|x| *x.0).collect();
+                if !due.is_empty() && !dup && (r.ok() || ids.iter().all(|i| due.contains(i))) {
+                    bad(format!("allocations {due:?} expired before epoch {now} and were named, but were not removed and refunded: {}", r.tree()));
+                }
+                if r.ok() {
+                    match r.ret.as_ref().map(|b| b.deserialize::<RemoveExpiredAllocationsReturn>()) {
+                        Some(Ok(ret)) => {
+                            if ret.datacap_recovered != BigInt::from(recovered) {
+                                bad(format!("RemoveExpiredAllocations reports {} recovered, removed allocations total {recovered}", ret.datacap_recovered));
+                            }
+                        }
+                        _ => bad("RemoveExpiredAllocations returned no decodable value".into()),
+                    }
+                }
+                if !gone.is_empty() {
+                    m.b.removes = m.b.removes.saturating_sub(1);
+                }
+                outcome = if !gone.is_empty() { "refunded" } else if r.ok() { "nothing removed" } else { "rejected" };
+            }
+            Act::RemoveExpiredClaims { by, provider, ids } => {
+                let before: BTreeSet<u64> = m.claims.keys().cloned().collect();
+                let r = ext(vm, c.id(*by), &reg, &z, VrMethod::RemoveExpiredClaimsExported as u64, Some(&RemoveExpiredClaimsParams { provider: c.id(*provider), claim_ids: ids.clone() }));
+                let after: BTreeSet<u64> = observe(vm).claims.iter().map(|x| x.1).collect();
+                let gone: Vec<u64> = before.difference(&after).cloned().collect();
+                for cid_ in &gone {
+                    let cl = m.claims.remove(cid_).unwrap();
+                    if cl.provider != c.id(*provider) || !(ids.is_empty() || ids.contains(cid_)) {
+                        bad(format!("claim {cid_} of provider {} removed by RemoveExpiredClaims(provider {provider:?}, {ids:?})", cl.provider));
+                    }
+                }
+                if !gone.is_empty() {
+                    m.b.claim_removes = m.b.claim_removes.saturating_sub(1);
+                }
+                outcome = if !gone.is_empty() { "claims removed" } else if r.ok() { "nothing removed" } else { "rejected" };
+            }
+            Act::ExtendClaimTerms { by, terms } => {
+                let prm = ExtendClaimTermsParams { terms: terms.iter().map(|(p, cid_, t)| ClaimTerm { provider: c.id(*p), claim_id: *cid_, term_max: *t }).collect() };
+                let before: Vec<i64> = observe(vm).claims.iter().map(|x| x.2.term_max).collect();
+                let r = ext(vm, c.id(*by), &reg, &z, VrMethod::ExtendClaimTermsExported as u64, Some(&prm));
+                let after: Vec<i64> = observe(vm).claims.iter().map(|x| x.2.term_max).collect();
+                let changed = before != after;
+                if changed {
+                    m.b.extends = m.b.extends.saturating_sub(1);
+                }
+                outcome = if changed { "extended" } else if r.ok() { "nothing extended" } else { "rejected" };
+            }
+            Act::RemoveDataCap { client, bytes, sig } => {
+                let client_addr = id(c.id(*client));
+                let vr: VrState = vm.state_of(REG).unwrap();
+                let pm = RemoveDataCapProposalMap::load(&vm.store, &vr.remove_data_cap_proposal_ids, REMOVE_DATACAP_PROPOSALS_CONFIG, "rdc").unwrap();
+                let request = |vp: P, tamper: bool| -> RemoveDataCapRequest {
+                    let pid = pm.get(&AddrPairKey::new(id(c.id(vp)), client_addr)).unwrap().map(|x| x.id).unwrap_or(0);
+                    let prop = RemoveDataCapProposal { verified_client: client_addr, data_cap_amount: BigInt::from(*bytes), removal_proposal_id: RemoveDataCapProposalID { id: pid } };
+                    let b = RawBytes::serialize(&prop).unwrap();
+                    let payload = [SIGNATURE_DOMAIN_SEPARATION_REMOVE_DATA_CAP, b.bytes()].concat();
+                    let mut sg = fake_sign(&c.key(vp), &payload);
+                    if tamper {
+                        sg[5] ^= 4;
+                    }
+                    RemoveDataCapRequest { verifier: id(c.id(vp)), signature: Signature { sig_type: SignatureType::BLS, bytes: sg } }
+                };
+                let prm = RemoveDataCapParams {
+                    verified_client_to_remove: client_addr,
+                    data_cap_amount_to_remove: BigInt::from(*bytes),
+                    verifier_request_1: request(P::V, false),
+                    verifier_request_2: match sig {
+                        RdcSig::Good => request(P::V2, false),
+                        RdcSig::Tampered => request(P::V2, true),
+                        RdcSig::SameVerifierTwice => request(P::V, false),
+                    },
+                };
+                let (_, applied) = self.propose(vm, VrMethod::RemoveVerifiedClientDataCap as u64, RawBytes::serialize(&prm).unwrap());
+                // every proposal advances the multisig's transaction counter: budget per attempt
+                m.b.rdc = m.b.rdc.saturating_sub(1);
+                if applied {
+                    // ledger effect: the client's tokens (at most what it holds) are burnt
+                    let burn = m.balance(c.id(*client)).min(*bytes);
+                    m.credit(c.id(*client), -burn);
+                    m.burnt += burn;
+                }
+                outcome = acc(applied);
+            }
+            Act::Burn { by, bytes } => {
+                let r = ext(vm, c.id(*by), &dcap, &z, DcMethod::BurnExported as u64, Some(&BurnParams { amount: tok(*bytes) }));
+                if r.ok() {
+                    if *bytes > m.balance(c.id(*by)) {
+                        bad(format!("{by:?} burnt {bytes} with a balance of {}", m.balance(c.id(*by))));
+                    }
+                    m.credit(c.id(*by), -*bytes);
+                    m.burnt += *bytes;
+                    m.b.burns = m.b.burns.saturating_sub(1);
+                }
+                outcome = acc(r.ok());
+            }
+            Act::Transfer { by, to, bytes } => {
+                let r = ext(vm, c.id(*by), &dcap, &z, DcMethod::TransferExported as u64, Some(&TransferParams { to: id(c.id(*to)), amount: tok(*bytes), operator_data: RawBytes::default() }));
+                if r.ok() {
+                    bad(format!("DataCap transfer from {by:?} to third party {to:?} was accepted (only transfers to or from the registry are permitted)"));
+                }
+                outcome = acc(r.ok());
+            }
+            Act::TransferFrom { by, from, to, bytes, req } => {
+                let od = match req {
+                    Some(rq) => self.op_data(c, std::slice::from_ref(rq), &[]),
+                    None => RawBytes::default(),
+                };
+                let r = ext(vm, c.id(*by), &dcap, &z, DcMethod::TransferFromExported as u64, Some(&TransferFromParams { from: id(c.id(*from)), to: id(c.id(*to)), amount: tok(*bytes), operator_data: od }));
+                if r.ok() {
+                    bad(format!("stranger {by:?} moved {bytes} of {from:?}'s DataCap to {to:?} without any allowance"));
+                }
+                outcome = acc(r.ok());
+            }
+            Act::Mint { by, to, bytes } => {
+                let r = ext(vm, c.id(*by), &dcap, &z, DcMethod::MintExported as u64, Some(&MintParams { to: id(c.id(*to)), amount: tok(*bytes), operators: vec![] }));
+                if r.ok() {
+                    bad(format!("{by:?} minted DataCap directly (only the registry may mint)"));
+                }
+                outcome = acc(r.ok());
+            }
+            Act::Destroy { by, owner, bytes } => {
+                let r = ext(vm, c.id(*by), &dcap, &z, DcMethod::DestroyExported as u64, Some(&DestroyParams { owner: id(c.id(*owner)), amount: tok(*bytes) }));
+                if r.ok() {
+                    bad(format!("{by:?} destroyed {owner:?}'s DataCap directly (only the registry may destroy)"));
+                }
+                outcome = acc(r.ok());
+            }
+            Act::Publish { by, client, provider, piece, start } => {
+                let before = alloc_ids(vm);
+                let prm = PublishStorageDealsParams { deals: vec![self.deal_proposal(c, *client, *provider, *piece, *start)] };
+                let r = ext(vm, c.id(*by), &STORAGE_MARKET_ACTOR_ADDR, &z, MarketMethod::PublishStorageDeals as u64, Some(&prm));
+                let o = observe(vm);
+                let new: Vec<&(u64, u64, Allocation)> = o.allocs.iter().filter(|x| !before.contains(&x.1)).collect();
+                let mut alloc_id = None;
+                if new.len() > 1 || (!r.ok() && !new.is_empty()) {
+                    bad(format!("publishing one verified deal created allocations {:?}", new.iter().map(|x| x.1).collect::<Vec<_>>()));
+                } else if let Some((_, aid, al)) = new.first() {
+                    let ident = al.client == c.id(*client) && al.provider == c.id(*provider) && al.data == data_cid(*piece) && al.size.0 as i128 == UNIT;
+                    if !ident {
+                        bad(format!("verified deal (client {client:?}, provider {provider:?}, piece {piece}, size {UNIT}) produced allocation {al:?}"));
+                    } else if *aid < m.next_id || m.fate.contains_key(aid) {
+                        bad(format!("market-made allocation id {aid} is not fresh (next unused {})", m.next_id));
+                    } else {
+                        // terms chosen by the market are adopted; the ledger effect is not
+                        m.allocs.insert(*aid, AllocM { client: al.client, provider: al.provider, data: *piece, size: UNIT, term_min: al.term_min, term_max: al.term_max, expiration: al.expiration });
+                        m.fate.insert(*aid, Fate::Open);
+                        m.next_id = *aid + 1;
+                        m.credit(al.client, -UNIT);
+                        m.credit(REG, UNIT);
+                        m.b.allocs = m.b.allocs.saturating_sub(1);
+                        alloc_id = Some(*aid);
+                    }
+                }
+                if r.ok() {
+                    m.b.publishes = m.b.publishes.saturating_sub(1);
+                    if let Some(Ok(ret)) = r.ret.as_ref().map(|b| b.deserialize::<PublishStorageDealsReturn>()) {
+                        for did in ret.ids {
+                            m.deals.insert(did, DealM { client: c.id(*client), provider: c.id(*provider), start: *start, alloc: alloc_id, activated: false });
+                        }
+                    }
+                }
+                outcome = if alloc_id.is_some() { "published with allocation" } else if r.ok() { "published without allocation" } else { "rejected" };
+            }
+            Act::ActivateClaim { by, deal, sector } => {
+                let d = m.deals.get(deal).cloned();
+                let end = d.as_ref().map(|d| d.start + DEAL_DURATION).unwrap_or(now + DEAL_DURATION);
+                let prm = BatchActivateDealsParams {
+                    sectors: vec![SectorDeals { sector_number: *sector, sector_type: RegisteredSealProof::StackedDRG32GiBV1P1, sector_expiry: end, deal_ids: vec![*deal] }],
+                    compute_cid: false,
+                };
+                let r = imp(vm, c.id(*by), &STORAGE_MARKET_ACTOR_ADDR, &z, MarketMethod::BatchActivateDeals as u64, Some(&prm));
+                let act = r
+                    .ret
+                    .as_ref()
+                    .filter(|_| r.ok())
+                    .and_then(|b| b.deserialize::<BatchActivateDealsResult>().ok())
+                    .filter(|x| x.activation_results.all_ok())
+                    .and_then(|x| x.activations.first().and_then(|s| s.activated.first().cloned()));
+                match act {
+                    None => outcome = "not activated",
+                    Some(ad) => {
+                        m.b.activations = m.b.activations.saturating_sub(1);
+                        if let Some(dm) = m.deals.get_mut(deal) {
+                            dm.activated = true;
+                        }
+                        if ad.allocation_id == 0 {
+                            outcome = "activated, no allocation";
+                        } else {
+                            // the "miner" claims exactly what the market handed back
+                            let client = [P::C1, P::C2].into_iter().find(|p| c.id(*p) == ad.client).unwrap_or(P::Z);
+                            let tag = m.allocs.get(&ad.allocation_id).map(|x| x.data).filter(|t| data_cid(*t) == ad.data).unwrap_or(0);
+                            let sc = SC { sector: *sector, expiry: end, claims: vec![CE { client, id: ad.allocation_id, data: tag, size: ad.size.0 as i128 }] };
+                            let (o, v) = self.do_claim(vm, c, &mut m, *by, &[sc], true, now);
+                            if let Some(v) = v {
+                                bad(v);
+                            }
+                            outcome = if o == "claimed" { "activated and claimed" } else { "activated, claim failed" };
+                        }
+                    }
+                }
+            }
+            Act::TickTo(t) => {
+                m.b.ticks = m.b.ticks.saturating_sub(1);
+                tick_to(vm, *t);
+                outcome = "ok";
+            }
+            Act::JumpTo(t) => {
+                // Neither the registry nor the token is driven by cron: one real tick, then the
+                // clock is set. The market's deferred maintenance is not run across the gap, so
+                // market-mediated actions and further ticks are switched off afterwards.
+                m.b.jumps = m.b.jumps.saturating_sub(1);
+                m.b.ticks = 0;
+                m.b.publishes = 0;
+                m.b.activations = 0;
+                vm.tick();
+                vm.set_epoch(*t);
+                outcome = "ok";
+            }
+        }
+        drop(bad);
+        if viol.is_none()
+            && let Err(e) = self.compare(vm, c, &mut m)
+        {
+            viol = Some(e);
+        }
+        let mut st = Step::new(VS { snap: vm.snapshot(), m }, outcome);
+        st.agreed = 1;
+        st.violation = viol;
+        st
+    }
+
+    fn describe(&self) -> serde_json::Value {
+        json!({
+            "policy": "MAINNET",
+            "cast": "root multisig 101 (signer 100, threshold 1); verifiers V, V2; clients C1, C2; stranger Z; two real miner actors M1, M2 (Power.CreateMiner, 32 GiB) whose calls to the registry / market are impersonated; real market, registry, DataCap token",
+            "unit_bytes": UNIT.to_string(),
+            "verifier_allowance_units": 4,
+            "grant_units": [1, 2, 5],
+            "allocation_terms": {"term_min": MINTERM, "term_max": MINTERM + 100, "expiration": format!("epoch0 + {SLOT}k")},
+            "configuration": if self.deep { "deep: core alphabet only (valid allocation / extension transfers, valid, foreign and repeated claims, removals, burn, market path, time)" } else if self.thorough { "full alphabet incl. thorough-only deviants" } else { "full alphabet" },
+            "bases": self.start,
+            "budgets": self.budget,
+            "time": "TickTo {expiration-1, expiration, expiration+1} of open allocations: sparse ticking (real cron tick wherever the power or market queue has an entry, and at the target); JumpTo {end, end+1} of a claim term: one real cron tick, then the epoch is set (market path and further ticks switched off afterwards)",
+            "oracle": "reference token ledger + allocation table compared after every step: all balances, supply = sum = minted - burnt, verifier allowances, registry balance = sum of open allocation sizes, allocation table, claim identities, TotalSupply/Balance probes; per-call accept/reject where the property defines it",
+        })
+    }
+}
+
+const ALL_BASES: [&str; 6] = ["genesis", "granted", "two-verifiers", "allocated", "deal", "claimed"];
+
+pub fn scenario(tier: &str) -> (DataCapScn, Bounds) {
+    let budget = Budget { root_ops: 2, grants: 2, allocs: 3, claims: 2, removes: 2, claim_removes: 1, extends: 1, exts: 1, burns: 1, rdc: 1, publishes: 1, activations: 1, ticks: 3, jumps: 1 };
+    if tier_is_thorough(tier) {
+        (
+            DataCapScn { budget, thorough: true, deep: false, bases: ALL_BASES.to_vec(), start: ALL_BASES.to_vec(), tag: "c09/datacap" },
+            Bounds { max_depth: 5, wall_cap_s: 700.0, ..Default::default() },
+        )
+    } else {
+        (
+            DataCapScn { budget, thorough: false, deep: false, bases: ALL_BASES.to_vec(), start: ALL_BASES.to_vec(), tag: "c09/datacap" },
+            Bounds { max_depth: 3, wall_cap_s: 30.0, ..Default::default() },
+        )
+    }
+}
+
+/// Quick tier, second pass: one level deeper from the bases that already hold allocations,
+/// a deal or a claim (wall-capped: on a busy machine the fourth level may be cut short).
+pub fn quick_d4_scenario() -> (DataCapScn, Bounds) {
+    let (mut scn, _) = scenario("quick");
+    scn.budget = Budget { root_ops: 1, grants: 1, ..scn.budget };
+    scn.start = vec!["allocated", "deal", "claimed"];
+    scn.tag = "c09/datacap-d4";
+    (scn, Bounds { max_depth: 4, wall_cap_s: 15.0, ..Default::default() })
+}
+
+/// Thorough tier, second pass: the core alphabet only, three more levels.
+pub fn deep_scenario() -> (DataCapScn, Bounds) {
+    let budget = Budget { root_ops: 0, grants: 0, allocs: 3, claims: 3, removes: 3, claim_removes: 1, extends: 0, exts: 1, burns: 1, rdc: 0, publishes: 1, activations: 1, ticks: 4, jumps: 1 };
+    (
+        DataCapScn { budget, thorough: false, deep: true, bases: ALL_BASES.to_vec(), start: vec!["granted", "allocated", "deal"], tag: "c09/datacap-deep" },
+        Bounds { max_depth: 8, wall_cap_s: 500.0, max_states: 4_000_000, ..Default::default() },
+    )
+}
+
+pub fn run(tier: &str) -> ! {
+    let (scn, b) = scenario(tier);
+    let mut run = mcx::evidence::Run::new("C09", tier, "model_checking");
+    run.assumptions = vec![
+        "mcvm mirrors the FVM message semantics (value transfer, rollback, caller validation); signatures are faked but bound to the signer (blake2b(signer key || message))".into(),
+        "providers are real miner actors created through Power.CreateMiner; their calls to VerifiedRegistry.ClaimAllocations and Market.BatchActivateDeals are impersonated (the registry's and the market's contract is with miner-typed callers); activation and the following claim are two top-level messages here, one inside the real miner".into(),
+        "the verified registry and the DataCap token are not driven by cron, so advancing the epoch is exact for them; TickTo (allocation expiration -1 / 0 / +1) still runs the real cron tick at every epoch at which the power or market queue has an entry and at the target (sparse ticking); JumpTo (end of a claim term, >= 180 days ahead) runs one real cron tick and then sets the epoch, after which market-mediated actions and further ticks are not offered on that history".into(),
+        "adopted, not judged: verifier/client eligibility beyond the allowance rule, allocation policy limits, batches naming an id twice inside one sector group (never a second claim, but group failure or message abort are both accepted), removal exactly at epoch == expiration (the implementation allows both claiming and removing at that epoch; each still happens at most once), claim terms (C10), authorisation of RemoveVerifiedClientDataCap, market deal rules".into(),
+        "amounts are whole multiples of 1 MiB (the policy minimum); at most 3 allocations, 2 grants, 2 claim messages and 2 removals per history (budgets in the model state)".into(),
+    ];
+    // base recipes are made of the same judged steps; a recipe step that violates the oracle is a
+    // violation of the property (DESIGN §2.6), replayable from the genesis base
+    {
+        let store = Store::new();
+        let w = scn.worker(&store);
+        let mut seen: Vec<String> = vec![];
+        for (_, script, msg) in &w.failures {
+            let sig = format!("{script:?}");
+            if seen.contains(&sig) {
+                continue;
+            }
+            seen.push(sig);
+            run.extra_violations.push(mcx::ViolationReport {
+                scenario: scn.name(),
+                base: "genesis".into(),
+                path: script.iter().map(|a| mcx::PathStep { action: serde_json::to_value(a).unwrap(), faults: vec![] }).collect(),
+                message: format!("base recipe step {}: {msg}", script.len() - 1),
+            });
+        }
+    }
+    run.add(mcx::explore(&scn, &b));
+    if run.extra_violations.is_empty() && run.reports.iter().all(|r| r.violations.is_empty()) {
+        let (second, sb) = if tier_is_thorough(tier) { deep_scenario() } else { quick_d4_scenario() };
+        run.add(mcx::explore(&second, &sb));
+    }
+    run.finish()
 }
 
 /// Replay a violation file written by this check; `v` is the parsed replay JSON.
-pub fn replay(_v: &serde_json::Value) -> ! {
-    eprintln!("C09: replay not implemented");
-    std::process::exit(2)
+pub fn replay(v: &serde_json::Value) -> ! {
+    let tier = v["tier"].as_str().unwrap_or("thorough");
+    crate::replay_with(&scenario(tier).0, v)
 }
